@@ -325,7 +325,7 @@ class Swap(Simple, SymmetryStrategy[WC, W]):
     """a <-> b on two-letter alphabets (statistics follow their letters)."""
 
     def decomposition_function(self, c):
-        if c.alphabet != ("a", "b"):
+        if c.alphabet not in (("a", "b"), ("a", "b", "c")):
             return None
         return (c.with_(prefix=swap_word(c.prefix), patterns=[swap_word(p) for p in c.patterns],
                         stats=[(n, swap_word(l)) for n, l in c.stats]),)
@@ -343,6 +343,274 @@ class Swap(Simple, SymmetryStrategy[WC, W]):
 
     def backward_map(self, c, objs, children=None):
         yield swap_word(objs[0])
+
+
+def cycle_word(w, k=1):
+    m = {"a": "b", "b": "c", "c": "a"}
+    for _ in range(k):
+        w = "".join(m.get(x, x) for x in w)
+    return W(w)
+
+
+class Cycle(Simple, SymmetryStrategy[WC, W]):
+    """a -> b -> c -> a on three-letter alphabets: with Swap it generates a non-commutative group, so the
+    order in which an equivalence path applies its maps matters."""
+
+    def decomposition_function(self, c):
+        if c.alphabet != ("a", "b", "c"):
+            return None
+        return (c.with_(prefix=cycle_word(c.prefix), patterns=[cycle_word(p) for p in c.patterns],
+                        stats=[(n, cycle_word(l)) for n, l in c.stats]),)
+
+    def extra_parameters(self, c, children=None):
+        if children is None:
+            children = self.decomposition_function(c)
+        return same_params(c, children)
+
+    def formal_step(self):
+        return "cycle letters"
+
+    def forward_map(self, c, w, children=None):
+        return (cycle_word(w),)
+
+    def backward_map(self, c, objs, children=None):
+        yield cycle_word(objs[0], 2)
+
+
+def future_letters(c, q):
+    """letters that can still follow the prefix q in a word of the class (a sound over-approximation)"""
+    fut = set(c.alphabet) - {p for p in c.patterns if len(p) == 1}
+    if q:
+        last = q[-1]
+        fut -= {x for x in c.alphabet if last + x in c.patterns and all(y == x or last + y in c.patterns or True for y in ())}
+        # after a letter `last`, letter x is impossible for ever if every letter that may follow leads back to the same
+        # situation; we only use the simple two-letter case: alphabet {a,b}, pattern last+x banned and the only other
+        # letter is `last` itself
+        if len(c.alphabet) == 2:
+            other = [x for x in c.alphabet if x != last]
+            if other and last + other[0] in c.patterns:
+                fut = fut & {last}
+            else:
+                fut = set(c.alphabet) - {p for p in c.patterns if len(p) == 1}
+        else:
+            fut = set(c.alphabet) - {p for p in c.patterns if len(p) == 1}
+    return fut
+
+
+class ExpandTrim(Simple, DisjointUnionStrategy[WC, W]):
+    """C(p) = C(p.z) + ... + C(p.a) + {p}: like Expand, with the children in the opposite order (the atom last) and
+    every child dropping the statistics that can only be 0 on it (no letter of the statistic occurs in its prefix or
+    can still follow): children of one union then carry different parameter sets, and a parent parameter that is
+    not passed to a child must be 0 there."""
+
+    def _kept(self, c, child_prefix, atom):
+        fut = set() if atom else future_letters(c, child_prefix)
+        keep = []
+        for n, l in c.stats:
+            if set(l) & (set(child_prefix) | fut):
+                keep.append((n, l))
+        return tuple(keep)
+
+    def decomposition_function(self, c):
+        if c.just_prefix or not c.stats:
+            return None
+        kids = [c.with_(prefix=c.prefix + a, stats=self._kept(c, c.prefix + a, False)) for a in reversed(c.alphabet)]
+        kids.append(c.with_(just_prefix=True, stats=self._kept(c, c.prefix, True)))
+        if all(k.stats == c.stats for k in kids):
+            return None
+        return tuple(kids)
+
+    def extra_parameters(self, c, children=None):
+        if children is None:
+            children = self.decomposition_function(c)
+        return tuple({n: n for n, _ in ch.stats} for ch in children)
+
+    def formal_step(self):
+        return "expand by next letter, trimming statistics"
+
+    def forward_map(self, c, w, children=None):
+        if children is None:
+            children = self.decomposition_function(c)
+        k = len(c.alphabet)
+        idx = k if len(w) == len(c.prefix) else (k - 1 - c.alphabet.index(w[len(c.prefix)]))
+        return tuple(w if i == idx else None for i in range(len(children)))
+
+
+class RenameStats(Simple, DisjointUnionStrategy[WC, W]):
+    """inferral: the same class with its statistics renamed k_i -> k_(i-1) style (a non-involutive renaming: the child
+    names overlap the parent names but are shifted), so that parameter maps are genuine renamings."""
+
+    def __init__(self, ignore_parent=True, inferrable=True, possibly_empty=False, workable=True):
+        super().__init__(ignore_parent=ignore_parent, inferrable=inferrable, possibly_empty=possibly_empty, workable=workable)
+
+    @staticmethod
+    def _renamed(c):
+        names = [n for n, _ in c.stats]
+        if not names or not all(n.startswith("k") and n[1:].isdigit() for n in names):
+            return None
+        if min(int(n[1:]) for n in names) <= 0:
+            return None
+        return {n: "k%d" % (int(n[1:]) - 1) for n in names}
+
+    def decomposition_function(self, c):
+        m = self._renamed(c)
+        if m is None:
+            return None
+        return (c.with_(stats=[(m[n], l) for n, l in c.stats]),)
+
+    def extra_parameters(self, c, children=None):
+        return (self._renamed(c),)
+
+    def formal_step(self):
+        return "rename statistics"
+
+    def forward_map(self, c, w, children=None):
+        return (w,)
+
+    def __repr__(self):
+        return "RenameStats()"
+
+    @classmethod
+    def from_dict(cls, d):
+        return cls(**d)
+
+
+class RemoveFrontRename(RemoveFront):
+    """RemoveFront whose second factor carries the statistics under swapped names (k1 <-> k2): the child's names
+    overlap the parent's in a crossed way."""
+
+    def decomposition_function(self, c):
+        kids = super().decomposition_function(c)
+        names = [n for n, _ in c.stats]
+        if kids is None or len(names) != 2:
+            return None
+        a, b = names
+        sw = {a: b, b: a}
+        return (kids[0], kids[1].with_(stats=sorted((sw[n], l) for n, l in c.stats)))
+
+    def extra_parameters(self, c, children=None):
+        names = [n for n, _ in c.stats]
+        a, b = names
+        return ({a: a, b: b}, {a: b, b: a})
+
+    def formal_step(self):
+        return "remove front of prefix, renaming statistics"
+
+
+class SplitMonotone(Simple, CartesianProductStrategy[WC, W]):
+    """A product of two non-atoms (several size compositions): words over {a,b} avoiding ba are a^i b^j,
+    C('', {ba}) = C('', {b}) x C('', {a})."""
+
+    def __init__(self, ignore_parent=False, inferrable=False, possibly_empty=False, workable=True):
+        super().__init__(ignore_parent=ignore_parent, inferrable=inferrable, possibly_empty=possibly_empty, workable=workable)
+
+    def decomposition_function(self, c):
+        if c.just_prefix or c.prefix != "" or c.alphabet != ("a", "b") or set(c.patterns) != {"ba"}:
+            return None
+        return (c.with_(patterns=["b"]), c.with_(patterns=["a"]))
+
+    def extra_parameters(self, c, children=None):
+        if children is None:
+            children = self.decomposition_function(c)
+        return same_params(c, children)
+
+    def formal_step(self):
+        return "split a*b* into a* and b*"
+
+    def backward_map(self, c, ws, children=None):
+        yield W(ws[0] + ws[1])
+
+    def forward_map(self, c, w, children=None):
+        i = len(w) - len(w.lstrip("a"))
+        return W(w[:i]), W(w[i:])
+
+    def __repr__(self):
+        return "SplitMonotone()"
+
+    @classmethod
+    def from_dict(cls, d):
+        return cls(**d)
+
+
+class RemoveThenExpandFactory(StrategyFactory[WC]):
+    """A factory yielding several strategies, the first of which often does not apply."""
+
+    def __call__(self, c):
+        yield RemoveFront()
+        if not c.just_prefix:
+            yield Expand()
+
+    def __str__(self):
+        return "remove-then-expand factory"
+
+    def __repr__(self):
+        return "RemoveThenExpandFactory()"
+
+    @classmethod
+    def from_dict(cls, d):
+        return cls()
+
+
+class RedundantParentFactory(StrategyFactory[WC]):
+    """Yields, for a class C with exactly one redundant pattern, the ready single-child rule  C' -> C  (AddRedundant
+    applied to the minimal class C'): the class being expanded is the *child* of the rule it gets."""
+
+    def __call__(self, c):
+        if c.just_prefix:
+            return
+        mins = [p for p in c.patterns if not any(q != p and q in p for q in c.patterns)]
+        if len(mins) + 1 == len(c.patterns):
+            cmin = c.with_(patterns=mins)
+            kids = AddRedundant().decomposition_function(cmin)
+            if kids is not None and kids[0] == c:
+                yield AddRedundant()(cmin)
+
+    def __str__(self):
+        return "redundant parent factory"
+
+    def __repr__(self):
+        return "RedundantParentFactory()"
+
+    @classmethod
+    def from_dict(cls, d):
+        return cls()
+
+
+class BruteVerified(VerificationStrategy[WC, W]):
+    """Verifies by brute force (no pack) the non-atom classes with a minimal pattern set and prefix of length <= k."""
+
+    def __init__(self, k=0, ignore_parent=True):
+        self.k = k
+        super().__init__(ignore_parent=ignore_parent)
+
+    def verified(self, c):
+        minimal = not any(q != p and q in p for p in c.patterns for q in c.patterns)
+        return not c.just_prefix and not c.is_empty() and len(c.prefix) <= self.k and minimal
+
+    def get_terms(self, c, n):
+        return c.get_terms(n)
+
+    def get_objects(self, c, n):
+        return c.get_objects(n)
+
+    def random_sample_object_of_size(self, c, n, **p):
+        return RNG.choice(list(c.objects_of_size(n, **p)))
+
+    def formal_step(self):
+        return "brute force, prefix <= %d" % self.k
+
+    def to_jsonable(self):
+        d = super().to_jsonable()
+        d["k"] = self.k
+        return d
+
+    @classmethod
+    def from_dict(cls, d):
+        return cls(**d)
+
+    def __repr__(self):
+        return "BruteVerified(k=%d)" % self.k
+
 
 
 class MinimizePatterns(Simple, DisjointUnionStrategy[WC, W]):
@@ -610,13 +878,20 @@ def basic_pack(**kw):
 
 def make_pack(sym=False, inf=False, merge=False, iterative=False, factory=False, parent_factory=False,
               prefix_verified=None, prefix_verified_rev=None, empty_prefix_verified=False, two_sets=False, no_initial=False, name=None, expand=True,
-              split=False, oneway=False, lazy=False):
-    inferral = ([MinimizePatterns()] if inf else []) + ([MergeStats()] if merge else [])
+              split=False, oneway=False, lazy=False, trim=False, rename=False, mono=False, fac2=False, cycle=False,
+              redundant_parent=False, brute=None):
+    inferral = ([MinimizePatterns()] if inf else []) + ([MergeStats()] if merge else []) + ([RenameStats()] if rename else [])
     exp = [ExpandFactory()] if factory else [Expand()]
     if parent_factory:
         exp = (exp if expand else []) + [ParentRuleFactory()]
     if oneway:
         exp = exp + [AddRedundant()]
+    if trim:
+        exp = [ExpandTrim()] + exp
+    if fac2:
+        exp = [RemoveThenExpandFactory()]
+    if redundant_parent:
+        exp = [RedundantParentFactory()]
     expansion = [exp]
     if two_sets:
         expansion = [[RemoveFront()], exp] if no_initial else [exp, [ExpandFactory()]]
@@ -627,12 +902,20 @@ def make_pack(sym=False, inf=False, merge=False, iterative=False, factory=False,
         ver.append(PrefixVerifiedRev(prefix_verified_rev))
     if empty_prefix_verified:
         ver.append(EmptyPrefixVerified())
+    if brute is not None:
+        ver.append(BruteVerified(brute))
     nm = name or "w%s%s%s%s%s%s" % ("-sym" if sym else "", "-inf" if inf else "", "-merge" if merge else "",
                                     "-it" if iterative else "", "-fac" if factory else "", "-pfac" if parent_factory else "")
     initial = [] if no_initial else ([SplitFront(), RemoveFront()] if split else [RemoveFront()])
+    if mono:
+        initial = [SplitMonotone()] + initial
+    if rename and not no_initial:
+        initial = [RemoveFrontRename()] + initial
+    if fac2:
+        initial = []
     if lazy and not no_initial:
         # not ignore_parent: the queue must still hand out the strict strategy for the same class afterwards
         initial = [RemoveFrontLazy(ignore_parent=False)] + initial
     return StrategyPack(initial_strats=initial, inferral_strats=inferral,
                         expansion_strats=expansion, ver_strats=ver, name=nm,
-                        symmetries=[Swap()] if sym else [], iterative=iterative)
+                        symmetries=([Swap()] if sym else []) + ([Cycle()] if cycle else []), iterative=iterative)
